@@ -166,6 +166,15 @@ class UnitBuilder:
 
     def _apply_subs(self, text, directives, name, fired):
         for d in directives:
+            if d[0] == 'derive':
+                # @derive [Traits]: whatever the item derives in the source, the unit derives exactly the listed traits
+                # (the meaning of the dropped derives is supplied by the *SpecImpl assumptions of the unit)
+                text, n = re.subn(r'#\[derive\([^)]*\)\]\s*', '', text)
+                keep = d[1].strip()
+                if keep:
+                    text = '#[derive(%s)]\n' % keep + text
+                fired.append('derive: %d derive attribute(s) replaced by [%s]' % (n, keep))
+        for d in directives:
             if d[0] == 'sub':
                 frm, to, allf = d[1]
                 f = rsx.Fn.__new__(rsx.Fn)
@@ -323,7 +332,7 @@ class UnitBuilder:
                 parts = s[1:].split(None, 1)
                 k = parts[0]
                 arg = parts[1] if len(parts) > 1 else ''
-                if k in ('ret', 'sigcheck', 'attr', 'rename', 'rule', 'host', 'stub', 'fingerprint', 'cut_from'):
+                if k in ('ret', 'sigcheck', 'attr', 'rename', 'rule', 'host', 'stub', 'fingerprint', 'cut_from', 'derive'):
                     ds.append((k, arg))
                 elif k == 'loop':
                     a = arg.split()
